@@ -133,6 +133,13 @@ def rule_sigchld(ck):
         ck.ob("C42.sigchld", fi, c, n.id in reach, "the installation is reachable")
     cl = ck.func(F, CLS + "._cleanup")
     fors = [n for n in own_nodes(cl.node) if isinstance(n, ast.For)]
+    if not fors:
+        # a comprehension evaluated for its effect / `for` spelled as list(map(...)) is the same loop
+        for st_ in cl.node.body:
+            v_ = st_.value if isinstance(st_, (ast.Expr, ast.Assign)) else None
+            if isinstance(v_, (ast.ListComp, ast.SetComp)) and len(v_.generators) == 1 and not v_.generators[0].ifs and isinstance(v_.generators[0].target, ast.Name):
+                g_ = v_.generators[0]
+                fors.append(ast.copy_location(ast.For(target=g_.target, iter=g_.iter, body=[ast.copy_location(ast.Expr(value=v_.elt), st_)], orelse=[]), st_))
     if len(fors) != 1 or not isinstance(fors[0].target, ast.Name):
         raise AnalysisError("_cleanup: expected one loop over the waiting pids")
     lp = fors[0]
@@ -156,10 +163,19 @@ def rule_try_cleanup(ck):
     pidp = params[0]
     cfg = fi.cfg
     wp = [n for n in cfg.stmt_nodes(lambda n: n.kind == "stmt" and isinstance(n.ast, ast.Assign) and q.is_call(n.ast.value, "os.waitpid"))]
-    if len(wp) != 1 or not (isinstance(wp[0].ast.targets[0], ast.Tuple) and len(wp[0].ast.targets[0].elts) == 2 and all(isinstance(e, ast.Name) for e in wp[0].ast.targets[0].elts)):
+    if len(wp) != 1:
         raise AnalysisError("expected one `ret_pid, status = os.waitpid(...)` in _try_cleanup_process")
     wpn = wp[0]
-    rp, status = (e.id for e in wpn.ast.targets[0].elts)
+    tgt_ = wpn.ast.targets[0]
+    if isinstance(tgt_, ast.Name):
+        # result kept in a temporary and unpacked later (`reaped = os.waitpid(..)` ... `ret_pid, status = reaped`)
+        unp = [n_ for n_ in own_nodes(fi.node) if isinstance(n_, ast.Assign) and isinstance(n_.targets[0], ast.Tuple) and q.dotted(n_.value) == tgt_.id]
+        if len(unp) != 1:
+            raise AnalysisError("the waitpid result %s is not unpacked exactly once" % tgt_.id)
+        tgt_ = unp[0].targets[0]
+    if not (isinstance(tgt_, ast.Tuple) and len(tgt_.elts) == 2 and all(isinstance(e, ast.Name) for e in tgt_.elts)):
+        raise AnalysisError("expected one `ret_pid, status = os.waitpid(...)` in _try_cleanup_process")
+    rp, status = (e.id for e in tgt_.elts)
     c = wpn.ast.value
     ck.ob("C42.reap", fi, c, len(c.args) == 2 and q.dotted(c.args[0]) == pidp and q.dotted(c.args[1]) == "os.WNOHANG", "waitpid polls the given pid without blocking the event loop (os.WNOHANG)")
     pm = q.parent_map(fi.node)
